@@ -68,6 +68,29 @@ fn main() {
         dump_c09_file(&a[2], &a[3]);
         return;
     }
+    if a.len() >= 5 && a[1] == "hitsprobe" {
+        // vsim hitsprobe <pattern> <n> <seed>: what the library recovers from a synthetic hit pattern
+        let (pattern, n, seed): (u8, usize, u64) = (a[2].parse().unwrap(), a[3].parse().unwrap(), a[4].parse().unwrap());
+        std::thread::Builder::new()
+            .stack_size(512 << 20)
+            .spawn(move || {
+                let (run, banks) = c09::kind_banks(&c09::Kind::Hits { pattern, n }, seed);
+                match alpha_g_physics::MainEvent::try_from_banks(run, banks.iter().map(|(n, d)| (n.as_str(), &d[..]))) {
+                    Err(e) => println!("Err {e}"),
+                    Ok(ev) => {
+                        let av = ev.avalanches();
+                        let mut ts: Vec<u64> = av.iter().map(|a| a.t.get::<uom::si::time::second>().to_bits()).collect();
+                        ts.sort();
+                        ts.dedup();
+                        println!("{} avalanches, {} distinct times, vertex {:?}", av.len(), ts.len(), ev.vertex().is_some());
+                    }
+                }
+            })
+            .unwrap()
+            .join()
+            .unwrap();
+        return;
+    }
     if a.len() >= 3 && a[1] == "fwdprobe" {
         let n = a[2].parse().unwrap_or(20);
         std::thread::Builder::new().stack_size(512 << 20).spawn(move || fwdprobe(n)).unwrap().join().unwrap();
